@@ -130,8 +130,12 @@ fn one_attack(
     let Some(att) = att else { return };
     st.candidates += 1;
     let mock = mock_accepts(k, rel, &ex.base, &ex.target, mbl, &att.changed);
-    let real = if k <= 12 { Some(real_accepts(k, rel, &ex.base, &ex.target, &att.changed)) } else { None };
-    let confirmed = matches!(mock, Ok(true)) && real.as_ref().map(|r| matches!(r, Ok(true))).unwrap_or(true);
+    // `prove`/`setup_vk` of the stdlib pick their own max_bit_len: the real prover only sees the
+    // same layout as the attacked tables when the relation's own choice gives the same k
+    let same_layout = catch_any(|| MidnightCircuit::from_relation(rel).min_k()).map(|k0| k0 == k).unwrap_or(false);
+    let real = if k <= 12 && (mbl == 8 || same_layout) { Some(real_accepts(k, rel, &ex.base, &ex.target, &att.changed)) } else { None };
+    let real_skipped_layout = k <= 12 && real.is_none();
+    let confirmed = matches!(mock, Ok(true)) && real.as_ref().map(|r| matches!(r, Ok(true))).unwrap_or(!real_skipped_layout);
     let w = json!({
         "op": name, "label": entry.kind.label(), "k": k, "max_bit_len": mbl, "nr_pow2range_cols": entry.cols,
         "attack": ex.why, "base_input": format!("{:?}", ex.base),
@@ -154,7 +158,10 @@ fn one_attack(
         };
         rep.violation(&format!("C04/{name}/{kind}"), &what, w);
     } else {
-        rep.inconclusive(&format!("{name}: extra-attack candidate not confirmed by mock/real: mock={mock:?} real={real:?}"));
+        rep.inconclusive(&format!(
+            "{name}: extra-attack candidate not confirmed by mock/real: mock={mock:?} real={real:?}{}",
+            if real_skipped_layout { " (max_bit_len differs from the one the stdlib prover would choose: real prover not applicable; the default-max_bit_len configuration decides)" } else { "" }
+        ));
     }
 }
 
